@@ -25,7 +25,7 @@ import (
 // Spec selects one cell's program and failure. It is passed (JSON) as the Func argument.
 type Spec struct {
 	Case      int    // index into the process-global table
-	Family    string // "direct": the armed operator is last, its output is the result; "reduce": ... -> Reduce(sum) tail
+	Family    string // "direct": the armed operator is last, its output is the result; "reduce": ... -> Reduce(sum) tail; "reshuffle": ... -> Reshuffle tail (reader/writer sites only)
 	Site      string // reader writer map filter flatmap fold combiner repart scan none
 	Layout    string // key layout: distinct | fold | G | table | buffer | merge
 	Mode      string // err tempbase tempnet tempsentinel tempretriable panic oorhi oorneg
@@ -461,6 +461,11 @@ func build(s *Spec) bigslice.Slice {
 			}
 			return a + b
 		})
+	}
+
+	if s.Family == "reshuffle" {
+		// the armed operator's task is a combiner-free shuffle producer (partitioned output)
+		slice = bigslice.Reshuffle(slice)
 	}
 
 	if s.Site == "scan" {
